@@ -34,7 +34,7 @@ CLAUSES = ["sum-equals-shape", "chunks-positive", "spec-respected", "limit-respe
            "iterate:exactly-once", "generate:contiguous", "pipeline-sum-equals-shape", "pipeline-limit-respected",
            "pipeline-equal-sized", "pipeline-ranges"]
 QUICK = dict(n=5000, time=30)
-THOROUGH = dict(n=400000, time=240, shards=16)
+THOROUGH = dict(n=160000, time=150, shards=16)
 EXHAUSTIVE = False
 
 DTYPES = ["float32", "complex64", "float64", "complex128", "int8"]
@@ -147,8 +147,8 @@ def gen_validate(rng):
 
 def gen(rng, tier):
     k = rng.random()
-    if k < 0.0015:
-        return {"kind": "pipeline", "seed": int(rng.integers(0, 2 ** 31))}
+    if k < 0.0012:
+        return {"kind": "pipeline", "seed": int(rng.integers(0, 2 ** 31)), "compute": bool(rng.random() < 0.5)}
     if k < 0.62:
         return gen_validate(rng)
     if k < 0.8:
@@ -173,7 +173,14 @@ def gen(rng, tier):
 
 def fixed_cases(tier):
     out = [{"kind": "equal-exhaustive", "nmax": 200},
-           {"kind": "pipeline", "seed": 11}, {"kind": "pipeline", "seed": 12},
+           {"kind": "pipeline", "seed": 11, "compute": False},
+           # an int chunk larger than its axis next to a size-1 'auto' axis (5 <= 7: a chunking within the limit exists)
+           {"kind": "validate", "shape": [1, 5], "spec": ["auto", 10], "limit": 7, "bad_tuple": False},
+           {"kind": "validate", "shape": [3, 1], "spec": [8, "auto"], "limit": 3, "bad_tuple": False},
+           # explicit tuples: unequal chunks count with their largest chunk; a tuple that does not sum is refused
+           {"kind": "validate", "shape": [6, 9], "spec": ["auto", [1, 8]], "limit": 17, "bad_tuple": False},
+           {"kind": "validate", "shape": [6, 9], "spec": [-1, [4, 4]], "bad_tuple": True},
+           {"kind": "validate", "shape": [6], "spec": [[3, 4]], "bad_tuple": True},
            # tight limits on size-1 'auto' axes and over-sized int chunks
            {"kind": "validate", "shape": [1], "spec": ["auto"], "limit": 1, "bad_tuple": False},
            {"kind": "validate", "shape": [1, 1], "spec": ["auto", "auto"], "limit": 1, "bad_tuple": False},
@@ -518,12 +525,15 @@ def check_pipeline(ctx, case):
             scan = abtem.GridScan(start=(0, 0), end=(0.5, 0.5), fractional=True, potential=pot,
                                   gpts=(int(rng.integers(2, 6)), int(rng.integers(2, 6))))
             m = probe.scan(pot, scan=scan, detectors=abtem.AnnularDetector(inner=10, outer=30), lazy=True)
-            m.compute()
+            if case.get("compute"):
+                m.compute()
             ls = abtem.LineScan(start=(0, 0), end=(2.0, 3.0), gpts=int(rng.integers(3, 12)))
             w2 = probe.build(scan=ls, lazy=True, max_batch=int(rng.integers(1, 20)))
             w2 = w2.rechunk((int(rng.integers(1, 3)),) + (-1,) * (len(w2.ensemble_shape) - 1))
             w2.intensity().compute()
-            pot.build(lazy=True).compute()
+            pb = pot.build(lazy=True)
+            if case.get("compute"):
+                pb.compute()
             s = abtem.SMatrix(semiangle_cutoff=15.0, energy=100e3, potential=abtem.Potential(atoms, gpts=(g, g)),
                               interpolation=1)
             s.scan(scan=abtem.GridScan(start=(0, 0), end=(1.0, 1.0), gpts=(2, 3)),
